@@ -58,7 +58,7 @@ def resp():
     table("R:SSTR?", "&'static str", [rust_str(x) for x in strs], "&str", "Ok($T[a0])", [sv(x) for x in strs])
     table("R:HSTR?", "heapless::String<128>", [rust_str(x) for x in strs], "&str",
           "Ok(heapless::String::<128>::try_from($T[a0]).unwrap())", [sv(x) for x in strs])
-    table("R:STRING?", "String", [rust_str(x) for x in strs], "&str", "Ok($T[a0].to_string())", [sv(x) for x in strs])
+    table("R:STRING?", "String", [rust_str(x) for x in strs], "&str", "Ok({ let _p = rec::Pause::new(); $T[a0].to_string() })", [sv(x) for x in strs])
     chrs = ["ON", "OFF", "MIN", "DEF_1", "A1"]
     table("R:CHR?", "scpi::Characters<'static>", [rust_str(x) for x in chrs], "&str", "Ok(scpi::Characters($T[a0]))",
           [{"t": "chr", "b": list(x.encode())} for x in chrs])
